@@ -218,6 +218,25 @@ class Fusion(Subject):
         return Data(np.hstack([specs.elem_data(r, m["cls"], n, m["_d"]) for m in spec["modules"]]))
 
 
+class SMapFusion(Subject):
+    """SimpleARTMAP hosting a FusionART: the host drives the nested estimator through step_fit only, so the nested
+    FusionART never passes through its own fit/partial_fit bookkeeping"""
+    cls = "SimpleARTMAP[FusionART]"
+
+    def __init__(self, chans=("HypersphereART", "FuzzyART")):
+        self.f = Fusion(chans)
+        self.name = "SimpleARTMAP(" + self.f.name + ")"
+
+    def spec(self, r):
+        return {"cls": "SimpleARTMAP", "module_a": self.f.spec(r)}
+
+    def spec_like(self, r, spec):
+        return {"cls": "SimpleARTMAP", "module_a": self.f.spec_like(r, spec["module_a"])}
+
+    def data(self, r, spec, n):
+        return Data(self.f.data(r, spec["module_a"], n).X, gen.labels(r, n, 3))
+
+
 # ---------------------------------------------------------------- hierarchical
 
 
@@ -437,6 +456,8 @@ def all_subjects() -> list[Subject]:
     out += [SMap("FuzzyART"), SMap("ART1"), SMap("GaussianART"),
             AMap("FuzzyART", "HypersphereART"), AMap("FuzzyART", "FuzzyART"),
             Fusion(("FuzzyART", "FuzzyART")), Fusion(("FuzzyART", "ART2A", "FuzzyART")),
+            Fusion(("HypersphereART", "FuzzyART")), SMapFusion(("HypersphereART", "FuzzyART")),
+            SMapFusion(("FuzzyART", "GaussianART")),
             Deep(("FuzzyART", "FuzzyART"), True), Deep(("FuzzyART", "HypersphereART", "FuzzyART"), False),
             Smart("FuzzyART"),
             Topo("FuzzyART"), Topo("HypersphereART"),
